@@ -1,0 +1,30 @@
+//go:build verif
+
+// Copyright 2025 NVIDIA CORPORATION
+// SPDX-License-Identifier: Apache-2.0
+
+package controllers
+
+import (
+	"k8s.io/apimachinery/pkg/runtime"
+	"k8s.io/client-go/tools/record"
+	"sigs.k8s.io/controller-runtime/pkg/client"
+
+	"github.com/NVIDIA/KAI-scheduler/pkg/podgrouper/podgroup"
+	"github.com/NVIDIA/KAI-scheduler/pkg/podgrouper/podgrouper"
+)
+
+// NewPodReconcilerForVerif builds a PodReconciler exactly as SetupWithManager fills it, but without a
+// controller-runtime manager (the working fields are unexported). Only compiled with the `verif` build
+// tag; used by the runtime-monitoring harness to drive the real Reconcile on an in-memory client.
+func NewPodReconcilerForVerif(c client.Client, scheme *runtime.Scheme, grouper podgrouper.Interface,
+	handler *podgroup.Handler, configs Configs, recorder record.EventRecorder) *PodReconciler {
+	return &PodReconciler{
+		Client:          c,
+		Scheme:          scheme,
+		podGrouper:      grouper,
+		PodGroupHandler: handler,
+		configs:         configs,
+		eventRecorder:   recorder,
+	}
+}
